@@ -240,11 +240,6 @@ def _sentinel_check(ctx, res, qualname: str, input_names_fn, what: str):
 
 def rule_sentinel_ravel(ctx) -> RuleResult:
     res = RuleResult("R-SENTINEL", "the missing-label code survives multi-grouper code arithmetic (np.ravel_multi_index)", min_instances=1)
-    f = ctx.prog.func("core._ravel_factorized")
-    if not any(norm(c.func).endswith("ravel_multi_index") for c in calls_in(f.node)):
-        res.notes.append("UNDECIDED: _ravel_factorized no longer uses np.ravel_multi_index; the rule template does not apply")
-        res.inst("core._ravel_factorized: no code arithmetic found")
-        return res
     _sentinel_check(ctx, res, "core._ravel_factorized", lambda f: {f.vararg} if f.vararg else set(f.params), "ravel of per-grouper codes")
     return res
 
@@ -256,54 +251,54 @@ def rule_sentinel_offset(ctx) -> RuleResult:
 
 
 # ---------------------------------------------------------------------------------------------
+def _last_index(sub: ast.Subscript) -> ast.AST:
+    sl = sub.slice
+    return sl.elts[-1] if isinstance(sl, ast.Tuple) else sl
+
+
 def rule_coindex(ctx) -> RuleResult:
     res = RuleResult("R-COINDEX", "labels and values are only ever re-indexed together with the same index", min_instances=2)
     f = ctx.prog.func("core.groupby_reduce")
     pm = parents_map(f.node)
-    sites = []
-    for n in walk_own(f.node):
-        if isinstance(n, ast.Assign) and len(n.targets) == 1 and isinstance(n.targets[0], ast.Name) and n.targets[0].id == "result" \
-                and isinstance(n.value, ast.Subscript) and norm(n.value.value) == "result":
-            sites.append(n)
+    # the value variable: first element of the returned tuple
+    rets = [n for n in walk_own(f.node) if isinstance(n, ast.Return) and isinstance(n.value, ast.Tuple) and n.value.elts
+            and isinstance(n.value.elts[0], ast.Name)]
+    if not rets:
+        raise AnalysisError("groupby_reduce: 'return (result, *groups)' not found")
+    V = rets[-1].value.elts[0].id
+    sites = [n for n in walk_own(f.node) if isinstance(n, ast.Assign) and len(n.targets) == 1 and isinstance(n.targets[0], ast.Name)
+             and n.targets[0].id == V and isinstance(n.value, ast.Subscript) and norm(n.value.value) == V
+             and not isinstance(_last_index(n.value), (ast.Constant, ast.Slice)) or
+             (isinstance(n, ast.Assign) and len(n.targets) == 1 and isinstance(n.targets[0], ast.Name) and n.targets[0].id == V
+              and isinstance(n.value, ast.Subscript) and norm(n.value.value) == V and isinstance(_last_index(n.value), ast.Slice)
+              and norm(_last_index(n.value)) != ":")]
     if len(sites) < 2:
-        raise AnalysisError(f"groupby_reduce: {len(sites)} re-indexings of result found (hand-confirmed: 2)")
+        raise AnalysisError(f"groupby_reduce: {len(sites)} re-indexings of the result along the group axis found (hand-confirmed: 2)")
     for n in sites:
-        idx = n.value.slice
-        last = idx.elts[-1] if isinstance(idx, ast.Tuple) else idx
+        last = _last_index(n.value)
         block = pm.get(id(n))
         body = getattr(block, "body", [])
-        partner = None
+        partners = []
+        others = []
         for st in body:
             if st is n or not isinstance(st, ast.Assign):
                 continue
             for sub in ast.walk(st.value):
-                if isinstance(sub, ast.Subscript) and norm(sub.value) in ("groups[0]", "groups_", "groups") \
-                        and not isinstance(sub.slice, ast.Constant):
-                    s2 = sub.slice
-                    l2 = s2.elts[-1] if isinstance(s2, ast.Tuple) else s2
-                    partner = (st, l2)
-        ok = partner is not None and norm(partner[1]) == norm(last)
-        res.inst(f"groupby_reduce: result[..., {norm(last)}] paired with labels[{norm(partner[1]) if partner else '<none>'}]: {ok}", norm(last))
+                if isinstance(sub, ast.Subscript) and not isinstance(sub.slice, ast.Constant) and norm(sub.value) != V \
+                        and V not in names_in(sub.value):
+                    (partners if norm(_last_index(sub)) == norm(last) else others).append((st, sub))
+        ok = bool(partners)
+        res.inst(f"groupby_reduce: {V}[..., {norm(last)}] paired with "
+                 f"{[norm(p[1])[:30] for p in partners] or [norm(o[1])[:30] for o in others] or '<nothing>'}: {ok}", norm(last))
         if not ok:
+            how = f"re-indexed differently ({norm(others[0][1])[:40]})" if others else "not re-indexed in the same block"
             res.report(f"core.groupby_reduce|coindex|{norm(last)[:30]}", f.where(n), f.qualname,
-                       f"the values are re-indexed with {norm(last)} but the labels are "
-                       f"{'re-indexed with ' + norm(partner[1]) if partner else 'not re-indexed in the same block'}: values and labels are no longer paired")
-    # the reverse direction: labels re-indexed without the values
-    for n in walk_own(f.node):
-        if isinstance(n, ast.Assign) and len(n.targets) == 1 and norm(n.targets[0]) in ("groups_", "groups") :
-            subs = [s for s in ast.walk(n.value) if isinstance(s, ast.Subscript) and norm(s.value) in ("groups[0]", "groups_")]
-            for s in subs:
-                s2 = s.slice
-                l2 = s2.elts[-1] if isinstance(s2, ast.Tuple) else s2
-                if isinstance(l2, (ast.Constant,)) or norm(l2) in ("...",):
-                    continue
-                block = pm.get(id(n))
-                body = getattr(block, "body", [])
-                twin = any(isinstance(st, ast.Assign) and norm(st.targets[0]) == "result" and norm(l2) in norm(st.value) for st in body)
-                res.inst(f"groupby_reduce: labels[{norm(l2)}] has a twin on result: {twin}")
-                if not twin:
-                    res.report(f"core.groupby_reduce|coindex-rev|{norm(l2)[:30]}", f.where(n), f.qualname,
-                               f"labels re-indexed with {norm(l2)} but result is not re-indexed with it in the same block")
+                       f"the values are re-indexed with {norm(last)} but the labels are {how}: values and labels are no longer paired")
+        for st, sub in others:
+            # another array re-indexed in the same block with a different index
+            if isinstance(st.targets[0], ast.Name) and norm(st.targets[0]) in names_in(sub.value) | {norm(sub.value)}:
+                res.report(f"core.groupby_reduce|coindex-other|{norm(_last_index(sub))[:30]}", f.where(st), f.qualname,
+                           f"{norm(st)[:60]}: re-indexed with {norm(_last_index(sub))} while the values use {norm(last)}")
     return res
 
 
@@ -567,12 +562,13 @@ def rule_plan(ctx) -> RuleResult:
     # (3) cohorts: reindexer is reindex_intermediates under the same boolean that becomes ReindexStrategy.blockwise
     reindexer_cond = blockwise_cond = None
     for n in walk_own(dg.node):
-        if isinstance(n, ast.Assign) and len(n.targets) == 1 and norm(n.targets[0]) == "reindexer" and isinstance(n.value, ast.IfExp):
+        if isinstance(n, ast.Assign) and len(n.targets) == 1 and isinstance(n.value, ast.IfExp) and "reindex_intermediates" in norm(n.value):
             if "reindex_intermediates" in norm(n.value.body):
                 reindexer_cond = norm(n.value.test)
             elif "reindex_intermediates" in norm(n.value.orelse):
                 reindexer_cond = f"not ({norm(n.value.test)})"
-        if isinstance(n, ast.Assign) and len(n.targets) == 1 and norm(n.targets[0]) == "new_reindex" and isinstance(n.value, ast.Call):
+        if isinstance(n, ast.Assign) and len(n.targets) == 1 and isinstance(n.value, ast.Call) and norm(n.value.func) == "ReindexStrategy" \
+                and any(isinstance(a, (ast.For,)) for a in ancestors(n, parents_map(dg.node))):
             b = kwarg(n.value, "blockwise")
             blockwise_cond = norm(b) if b is not None else None
     res.inst(f"cohorts: reindexer is reindex_intermediates iff {reindexer_cond}; new ReindexStrategy.blockwise = {blockwise_cond}", "cohort-reindex")
@@ -605,8 +601,9 @@ def rule_copermute(ctx) -> RuleResult:
         blk = pm.get(id(st))
         by_block.setdefault(id(blk), []).append(c)
     for blk, cs in by_block.items():
-        lab = [c for c in cs if norm(c.args[0]).startswith("by")]
-        val = [c for c in cs if norm(c.args[0]) == "array"]
+        p0 = f.params[0]
+        val = [c for c in cs if norm(c.args[0]) == p0]
+        lab = [c for c in cs if norm(c.args[0]) != p0]
         if not lab or not val:
             res.report("core.groupby_reduce|copermute-unpaired", f.where(cs[0]), f.qualname,
                        "the reduced axes of the labels and of the values are not moved to the end in the same block")
@@ -634,4 +631,54 @@ def rule_copermute(ctx) -> RuleResult:
             res.report("core.groupby_reduce|copermute", f.where(lab[0]), f.qualname,
                        f"the labels' reduced axes {norm(la)[:70]} are not an element-wise image of the values' axes {norm(va)} in the same order: "
                        "for a non-ascending axis tuple both are flattened to the same length but each label is paired with another element's value")
+    return res
+
+
+# ---------------------------------------------------------------------------------------------
+def rule_promote(ctx) -> RuleResult:
+    res = RuleResult("R-PROMOTE", "integer promotion sites pair signed kinds with np.int_ and unsigned kinds with np.uint", min_instances=4)
+    SIGNED, UNSIGNED = {"np.int_", "np.intp", "np.int64", "int"}, {"np.uint", "np.uintp", "np.uint64"}
+    n_sites = 0
+    for f in ctx.prog.all_funcs():
+        pm = None
+        for c in calls_in(f.node):
+            if norm(c.func) not in ("np.result_type", "numpy.result_type") or len(c.args) != 2:
+                continue
+            other = norm(c.args[1])
+            if other not in SIGNED | UNSIGNED:
+                continue
+            pm = pm or parents_map(f.node)
+            # kinds admitted by the nearest enclosing test that mentions .kind
+            kinds = None
+            child = c
+            for a in ancestors(c, pm):
+                if isinstance(a, ast.If) and ".kind" in norm(a.test):
+                    in_body = any(child is st or any(child is x for x in ast.walk(st)) for st in a.body)
+                    if in_body:
+                        kinds = set()
+                        for cmp_ in ast.walk(a.test):
+                            if isinstance(cmp_, ast.Compare) and ".kind" in norm(cmp_.left) and isinstance(cmp_.comparators[0], ast.Constant):
+                                v = cmp_.comparators[0].value
+                                if isinstance(cmp_.ops[0], ast.Eq):
+                                    kinds.add(v)
+                                elif isinstance(cmp_.ops[0], ast.In):
+                                    kinds |= set(v)
+                            elif isinstance(cmp_, ast.Compare) and ".kind" in norm(cmp_.left) and isinstance(cmp_.comparators[0], (ast.List, ast.Tuple)):
+                                kinds |= {e.value for e in cmp_.comparators[0].elts if isinstance(e, ast.Constant)}
+                        break
+                child = a
+            n_sites += 1
+            res.inst(f"{f.qualname}: {norm(c)} under kinds {sorted(kinds) if kinds is not None else 'unguarded'}", f"{f.qualname}|{norm(c)}")
+            if kinds is None:
+                res.notes.append(f"UNDECIDED {f.where(c)} {f.qualname}: {norm(c)} is not under a dtype.kind test")
+                continue
+            if other in SIGNED and "u" in kinds:
+                res.report(f"{f.qualname}|promote-unsigned-with-signed|{norm(c)[:40]}", f.where(c), f.qualname,
+                           f"{norm(c)} is applied to unsigned kinds {sorted(kinds)}: np.result_type(uint64, int64) is float64, so 64-bit unsigned "
+                           "values above 2**53 lose precision (use np.uint for kind 'u')")
+            if other in UNSIGNED and ("i" in kinds):
+                res.report(f"{f.qualname}|promote-signed-with-unsigned|{norm(c)[:40]}", f.where(c), f.qualname,
+                           f"{norm(c)} is applied to signed kinds {sorted(kinds)}: mixing int64 with uint64 promotes to float64")
+    if n_sites < 4:
+        raise AnalysisError(f"R-PROMOTE: {n_sites} integer promotion sites found (hand-confirmed: 4)")
     return res
